@@ -1,5 +1,7 @@
 import ZarrsModel.Driver.Proto
 import ZarrsModel.Driver.C09
+import ZarrsModel.Driver.C10
+import ZarrsModel.Driver.C11
 /-
 Line-protocol driver: reads `request -> implementation outcome` lines, replays each request through the
 model's executable definitions and prints one verdict line per request:
@@ -12,6 +14,8 @@ open Zarrs Zarrs.Proto
 def dispatch (l : Line) : Option String :=
   match l.verbs.head? with
   | some "c09" => DriverC09.handle l
+  | some "c10" => DriverC10.handle l
+  | some "c11" => DriverC11.handle l
   | _ => none
 
 partial def loop (h : IO.FS.Stream) (n : Nat) (ok diff bad : Nat) : IO (Nat × Nat × Nat) := do
